@@ -1907,3 +1907,84 @@ def rule_export_id(cx, tier):
     r.floor("export sites in compile_import", n, 2)
     r.analysed = {"export_sites": n}
     return r
+
+
+# ---------------------------------------------------------------------------------------------
+# R-BUILDERS-ON-ERROR (C07): an error that leaves the interpreter loop takes its unfinished builders with it
+
+def rule_builders_on_error(cx, tier):
+    r = RuleResult("R-BUILDERS-ON-ERROR",
+                   "every error that leaves `execute_instructions` passes the unwinder (`pop_call_stack_on_error`); on each "
+                   "path from the top of the interpreter loop through an unwinder call to a return that does not resume at "
+                   "a catch point (`set_ip`), both builder stacks (`sequence_builders`, `string_builders`) are shrunk -- "
+                   "otherwise a list / string under construction when the error was raised stays in the VM for good")
+    SHRINK = ("Vec::truncate", "Vec::drain", "Vec::split_off", "Vec::clear")
+    FIELDS = ("sequence_builders", "string_builders")
+    top = cx.need_fn(VM + "execute_instructions")
+
+    def shrink_blocks(g, fld, depth=0):
+        out = set()
+        for c in g.calls():
+            if c.is_(*SHRINK) and _receiver_is_self_field(cx, g, c, fld):
+                out.add(c.bb)
+            elif depth < 2 and c.short.startswith(VM) and c.short != g.qual:
+                h = cx.F.fn(c.short)
+                if h is not None and h.vis != "pub" and h is not top:
+                    hs = shrink_blocks(h, fld, depth + 1)
+                    hcfg = cx.cfg(h)
+                    if hs and 0 not in hcfg.exits and \
+                            hcfg.find_path(0, lambda b: b in hcfg.exits, hs, include_src_succs=True) is None:
+                        out.add(c.bb)          # the helper shrinks on all of its paths
+        return out
+
+    subjects = [top]
+    for c in top.calls():
+        h = cx.F.fn(c.short) if c.short.startswith(VM) else None
+        if h is not None and h.vis != "pub" and h is not top and h not in subjects and \
+                any(x.short == VM + "pop_call_stack_on_error" for x in h.calls()):
+            subjects.append(h)
+    n = 0
+    for g in subjects:
+        gcfg = cx.cfg(g)
+        unw = [c for c in g.calls() if c.short == VM + "pop_call_stack_on_error"]
+        setips = {c.bb for c in g.calls() if c.short == VM + "set_ip"}
+        # private helpers that resume at the catch point count as resumption
+        for c in g.calls():
+            h = cx.F.fn(c.short) if c.short.startswith(VM) else None
+            if h is not None and h.vis != "pub" and any(x.short == VM + "set_ip" for x in h.calls()):
+                setips.add(c.bb)
+        # the top of the loop: the block that fetches the next instruction (else the entry)
+        heads = [c.bb for c in g.calls() if c.short.endswith("InstructionReader as Iterator>::next")] or [0]
+        for u in unw:
+            for fld in FIELDS:
+                n += 1
+                r.instances += 1
+                r.nontrivial += 1
+                A = shrink_blocks(g, fld)
+                before = set()
+                for h0 in heads:
+                    before |= gcfg.reachable({h0}, avoid=A)
+                ok = True
+                if u.bb in before or u.bb in heads:
+                    p = gcfg.find_path(u.bb, lambda b: b in gcfg.exits, A | setips, include_src_succs=True)
+                    ok = p is None
+                if not ok and g is not top:
+                    # the helper holds only the unwinder call: the caller may have shrunk the stack before calling it
+                    tcfg = cx.cfg(top)
+                    At = shrink_blocks(top, fld)
+                    theads = [c.bb for c in top.calls() if c.short.endswith("InstructionReader as Iterator>::next")] or [0]
+                    tbefore = set()
+                    for h0 in theads:
+                        tbefore |= tcfg.reachable({h0}, avoid=At)
+                    sites = [c for c in top.calls() if c.short == g.qual]
+                    ok = bool(sites) and all(c.bb not in tbefore for c in sites)
+                r.sample({"in": g.qual[len(VM):], "unwinder_line": u.line, "field": fld, "shrunk_before_leaving": ok})
+                if not ok:
+                    r.add(Finding("R-BUILDERS-ON-ERROR", g.qual, f"{fld}:unwinder-to-return",
+                                  f"an error can leave {g.qual[len(VM):]} through the unwinder call at line {u.line} without "
+                                  f"self.{fld} being shrunk: a {'list / tuple / map' if fld == 'sequence_builders' else 'string'} "
+                                  f"under construction when the error was raised stays behind in the VM after the failed run",
+                                  g.file, u.line))
+    r.floor("unwinder call x builder stack pairs", n, 2)
+    r.analysed = {"pairs": n, "functions": [g.qual[len(VM):] for g in subjects]}
+    return r
